@@ -43,12 +43,24 @@ pub fn run(rep: &mut Rep) {
     rep.note(&format!("crash points: drop(context) offered at every step of every path of <= {depth} actions over {{create (unpolled) / start pub1/pub2/sub/ping, first poll, acks, hold/release the QoS 2 future, stall/release the writer (queued-but-unsent), inbound PUBLISH to a stream, take / hold / release stream}}; after the drop: every pending future and stream, and operations started afterwards, are checked under the wake-only executor"));
     let seed = rep.seed;
     explore_world(rep, "exh", depth, &move || World::boot(WorldCfg { seed, ..Default::default() }), &a);
+    // with limits announced by the broker (Receive Maximum 1, Maximum Packet Size 64): requests that would have been
+    // refused locally while the context lived must fail with ContextExited like all others once it is gone
+    let mut al = a.clone();
+    al.kinds = vec![Kind::Pub1, Kind::PubBig, Kind::Sub, Kind::Ping];
+    al.after_drop_kinds = vec![Kind::Pub0, Kind::Pub1, Kind::Pub2, Kind::PubBig, Kind::Sub, Kind::Ping];
+    al.inbound = vec![];
+    al.max_inbound = 0;
+    al.writer_stall = false;
+    rep.note("the same with Receive Maximum 1 and Maximum Packet Size 64 announced in CONNACK and 300-byte publishes in the alphabet (before and after the drop)");
+    explore_world(rep, "exhlim", depth, &move || World::boot(WorldCfg { seed, receive_max: Some(1), max_packet: Some(64), ..Default::default() }), &al);
     let mut wa = a.clone();
     wa.max_ops = 30;
     wa.max_conc = 6;
     wa.max_inbound = 30;
+    wa.kinds.push(Kind::PubBig);
+    wa.after_drop_kinds.push(Kind::PubBig);
     let walks = if rep.quick() { 400 } else { 40000 };
-    walk_world(rep, "walk", walks, 60, &|s| World::boot(WorldCfg { seed: s, order: (s % 4) as u8, ..Default::default() }), &wa);
+    walk_world(rep, "walk", walks, 60, &|s| World::boot(WorldCfg { seed: s, order: (s % 4) as u8, receive_max: if s % 3 == 1 { Some(1 + (s % 2) as u16) } else { None }, max_packet: if s % 3 == 2 { Some(64) } else { None }, ..Default::default() }), &wa);
 }
 
 fn walk_world_shardless(rep: &mut Rep, name: &str, base: u64, walks: u64, steps: usize, a: &Alpha) {
